@@ -21,6 +21,10 @@ type Tag struct {
 type Scanner struct {
 	buf   []byte
 	depth int
+	pos   int // bytes consumed so far (complete tags and the text before them)
+	// TopEnd is the number of bytes fed so far up to and including the last tag that
+	// returned to depth 0 (the end of the last complete top-level element).
+	TopEnd int
 }
 
 // Depth returns the current element depth.
@@ -45,6 +49,7 @@ func (s *Scanner) Feed(p []byte) []Tag {
 			}
 			out = append(out, Tag{Kind: "text", Text: string(s.buf[:i]), Depth: s.depth})
 			s.buf = s.buf[i:]
+			s.pos += i
 			continue
 		}
 		// find the end of the tag, skipping quoted strings
@@ -56,6 +61,7 @@ func (s *Scanner) Feed(p []byte) []Tag {
 			}
 			out = append(out, Tag{Kind: "comment", Raw: string(s.buf[:j+3]), Depth: s.depth})
 			s.buf = s.buf[j+3:]
+			s.pos += j + 3
 			continue
 		}
 		var q byte
@@ -81,6 +87,7 @@ func (s *Scanner) Feed(p []byte) []Tag {
 		}
 		raw := string(s.buf[:end+1])
 		s.buf = s.buf[end+1:]
+		s.pos += end + 1
 		switch {
 		case strings.HasPrefix(raw, "<?"):
 			out = append(out, Tag{Kind: "pi", Raw: raw, Depth: s.depth})
@@ -89,6 +96,9 @@ func (s *Scanner) Feed(p []byte) []Tag {
 		case strings.HasPrefix(raw, "</"):
 			s.depth--
 			out = append(out, Tag{Kind: "end", Name: strings.TrimSpace(raw[2 : len(raw)-1]), Raw: raw, Depth: s.depth})
+			if s.depth <= 0 {
+				s.TopEnd = s.pos
+			}
 		default:
 			self := strings.HasSuffix(raw, "/>")
 			body := raw[1 : len(raw)-1]
@@ -99,6 +109,9 @@ func (s *Scanner) Feed(p []byte) []Tag {
 			t := Tag{Kind: "start", Name: name, Attr: attrs, Raw: raw, Depth: s.depth}
 			if self {
 				t.Kind = "empty"
+				if s.depth <= 0 {
+					s.TopEnd = s.pos
+				}
 			} else {
 				s.depth++
 			}
